@@ -569,6 +569,33 @@ def gen_scripts(rng):
     return out
 
 
+def value_display_cases():
+    """Display of cadence::ext::MetricValue (public type, public impl): every variant, empty packed lists included"""
+    big = 2 ** 64 - 1
+    vs = [("s", 0), ("s", -1), ("s", -(2 ** 63)), ("s", 2 ** 63 - 1), ("u", 0), ("u", big), ("u", 2 ** 53 + 1),
+          ("ps", []), ("ps", [-5]), ("ps", [1, -2, 3]), ("ps", [-(2 ** 63), 2 ** 63 - 1, 0, 0]), ("ps", list(range(-300, 300))),
+          ("pu", []), ("pu", [7]), ("pu", [big, 0, big]), ("pu", list(range(1000))), ("pf", [])]
+    return ["V " + arg_token("user", v) for v in vs]
+
+
+def value_display_failures(prop):
+    """(size, case, observation, message) for the clauses of C02 (the text) and C20 (no panic)"""
+    vc = value_display_cases()
+    try:
+        vi = common.run_harness("wire", vc, shards=1)
+        vm = common.run_model("wire", vc)
+    except common.CheckFailure as e:
+        return [(0, vc[0], "harness failure", "Display of MetricValue: %s" % str(e)[:200])] if prop in ("C02", "C20") else []
+    out = []
+    for c, i, m in zip(vc, vi, vm):
+        if "panic" in i.lower():
+            if prop == "C20":
+                out.append((len(c), c, i, "formatting a MetricValue with {} panicked: %s" % c[2:80]))
+        elif i != m and prop == "C02":
+            out.append((len(c), c, i, "Display of MetricValue %s gave %s, expected %s" % (c[2:60], i[:80], m[:80])))
+    return out
+
+
 def gen_ctor_lines(rng, ftext_needed):
     out = []
     for (kind, ty) in CTORS:
@@ -713,6 +740,16 @@ def run_wire_check(prop, tier, seed):
             want = hx(p + key + ":" + ":".join(vals) + "|" + CODES[kind])
             if ki != want:
                 failures.append((len(kl), kl, ki, "constructor text %s, expected %s" % (ki, want)))
+    if prop == "C02":
+        # the value section of the standalone constructors' text: the canonical numeral of the value supplied
+        for k, kl, ki in zip(ctor, klines, kimpl):
+            _, kind, ty, v, p, key = k
+            vals = expected_values(kind, ty, v, ftext)
+            head, tail = hx(p + key + ":"), hx("|" + CODES[kind])
+            if ki.startswith(head) and ki.endswith(tail) and ki[len(head):len(ki) - len(tail)] != hx(":".join(vals)):
+                failures.append((len(kl), kl, ki, "constructor %s::new(%s %r): value rendered as %r, expected %r" % (
+                    kind, ty, v, bytes.fromhex(ki[len(head):len(ki) - len(tail)]).decode("utf-8", "replace"), ":".join(vals))))
+        failures += value_display_failures(prop)
     if failures:
         failures.sort()
         _, l, o, msg = failures[0]
